@@ -97,6 +97,99 @@ def lock_design(chk, pid):
     return 0
 
 
+def crash_design(chk, pid):
+    """StoreCrash at design level: one flush as its SQL statements, the process killed before any of them."""
+    bl = [{"id": 1, "txs": [{"id": 10, "nouts": 1, "nins": 1}, {"id": 11, "nouts": 2, "nins": 2}]},
+          {"id": 2, "txs": [{"id": 20, "nouts": 1, "nins": 1}]}]
+    inv = ["I_ReadBackIsWholeBlocks", "I_AllOrNothing", "I_DoneMeansAll"]
+    defs = "BlocksDef == %s" % store_drv.tla(bl)
+    r = tracecheck.model("StoreCrash", "Spec", {"Blocks": ("<-", "BlocksDef"), "Atomic": True}, workers=2, timeout=300, invariants=inv, extra_defs=defs)
+    tlc.require_clean(r, "StoreCrash")
+    chk.add_tlc("StoreCrash (one flush of 2 blocks / 3 transactions as 14 statements, a crash before each)", r, constants="Atomic=TRUE")
+    if r.violated:
+        return machinery_failure(pid, "StoreCrash violates %s" % r.violated)
+    rn = tracecheck.model("StoreCrash", "Spec", {"Blocks": ("<-", "BlocksDef"), "Atomic": False}, workers=2, timeout=300, invariants=inv[:1], extra_defs=defs)
+    chk.add_tlc("StoreCrash necessity run: Atomic = FALSE (every row durable on its own)", rn, expect_violation=inv[0])
+    if not rn.violated:
+        return machinery_failure(pid, "vacuity: StoreCrash without the SQL transaction violates nothing")
+    return 0
+
+
+def crash_stage(chk, quick, rng, pid, cfg, keys):
+    """A crash at every SQL statement of a flush of the real store (forked process, SIGKILL), then a restart through the real
+    read_chain_from_disk; afterwards the same blocks are handed over again and flushed.  Judged by TLC (TraceStore, op "crash")."""
+    rc_ = crash_design(chk, pid)
+    if rc_:
+        return rc_
+    cum = {}
+
+    def cum_subsidy(h):
+        if h not in cum:
+            cum[h] = sum(cfg.subsidy(x) for x in range(h + 1))
+        return cum[h]
+    traces, info = [], {}
+    plans = []
+    for name in ("clean", "odd_shapes"):
+        descs = universes()[name]
+        order = [d["id"] for d in descs]
+        plans.append((name, [order]))                      # everything in one flush
+        plans.append((name, [order[:2], order[2:]]))       # two flushes: crashes in the second one
+        if not quick:
+            plans.append((name, [order[:1], order[1:3], order[3:]]))
+    ncrash = 0
+    for name, batches in plans:
+        w, g, blocks = build(cfg, keys, universes()[name], tag=b"crash")
+        for bi in range(len(batches)):
+            k = 1
+            while True:
+                run_ = store_drv.StoreRun(w, g)
+                try:
+                    for b_ in batches[:bi]:
+                        for i in b_:
+                            run_.buffer(blocks[i])
+                        run_.flush()
+                    for i in batches[bi]:
+                        run_.buffer(blocks[i])
+                    killed = run_.flush_crash(k, cum_subsidy=cum_subsidy)
+                    if killed:
+                        ncrash += 1
+                        for i in batches[bi]:              # the restarted node is given the same blocks again
+                            run_.buffer(blocks[i], apply=False)
+                        run_.flush()
+                    for b_ in batches[bi + 1:]:
+                        for i in b_:
+                            run_.buffer(blocks[i])
+                        run_.flush()
+                    t = run_.trace(len(traces) + 1, prop=pid)
+                    traces.append(t)
+                    info[t["id"]] = ("%s, batches %s, crash at statement %d of flush %d" % (name, batches, k, bi + 1), "")
+                    chk.case(("crash", name, str(batches), bi, k), nontrivial=killed)
+                finally:
+                    run_.close()
+                if not killed:
+                    break
+                k += 1
+                if k > 400:
+                    return machinery_failure(pid, "a flush with more than 400 statements?")
+    if ncrash < 40:
+        return machinery_failure(pid, "only %d crash points were reached" % ncrash)
+    chk.extra["crash_points_in_a_flush_of_the_real_store"] = ncrash
+    ids = [t["id"] for t in traces]
+    verdicts, r2 = tracecheck.run("TraceStore", traces, {}, ids=ids, workers=4, timeout=1800)
+    chk.states += r2.distinct
+    chk.transitions += r2.generated
+    chk.traces_validated += len(traces)
+    by = {t["id"]: t for t in traces}
+    for t_id, (clause, line) in verdicts.items():
+        if clause != "ok" and clause != "C08:shared_transaction_kept_for_first_block_only":
+            if not clause.startswith(pid + ":"):
+                clause = "%s:store_after_a_crash(%s)" % (pid, clause)
+            chk.violation(clause, {"history": info[t_id][0], "event": by[t_id]["events"][line - 1]}, {"clause": clause})
+    for dft in tlc.tagged(r2, "DRIFT"):
+        chk.model_drift("crash trace %s event %s: %s" % tuple(dft[:3]))
+    return 0
+
+
 def two_writer_stage(chk, quick, rng, pid, cfg, keys):
     """C09 / C12: the relay path and the miner share the store's write buffer -- forced two-writer schedules on a real BlockStore."""
     from checks.ledger import RandomTree
@@ -250,6 +343,9 @@ def run(pid, tier, replay=None):
             chk.case(("dbfault", k_fault), nontrivial=True)
         finally:
             run_.close()
+    rc_ = crash_stage(chk, quick, rng, pid, cfg, keys)
+    if rc_:
+        return rc_
     chk.extra["concurrent_hand_overs_during_a_flush"] = info.pop("concurrent_hand_overs", 0)
     if lock_traces:
         vl, rlt = tracecheck.run("TraceStoreLock", lock_traces, {"Writers": {1, 2}, "Blocks": set(), "LockScope": "whole", "MaxFlushes": 99, "Prop": pid},
